@@ -29,14 +29,16 @@ CLAIM_TEXT = {
     'C01': ('decided slices only: every byte class (complete), every 2-digit date/time field range and the calendar rule, '
             'hex-escape scalar range (thorough), float overflow guard with either sign, integer literals beyond i64 '
             'rejected in every base (V8, assumed from_str_radix), the one-letter escape table and hex-escape closures (V9), '
-            'first-byte dispatch of values / newlines / document lines / keys = the ABNF alternatives (V3, V16). Composition of '
-            'productions is not decided.',
+            'first-byte dispatch of values / newlines / document lines / keys = the ABNF alternatives (V3, V16). Bounded, never '
+            'counted as proved: ws / newline / ws-newline / ws-newlines in situ take the longest run of their ABNF rule on every '
+            '2-3 byte input (K9q quick, K9 thorough). Composition of the other productions is not decided.',
             '5 C01'),
     'C02': ('value of each 2/4-digit date-time field of the document grammar (per fixed width); fractional seconds '
             'truncated to nanoseconds for every digit string (V7, document grammar; V5, standalone parser); every field of '
             'the standalone parser for every string (V5); integer literal values (V8); float literal conversion (V12); escapes '
             '(V9; K5 in situ, thorough); date-time assembly (V11); CRLF -> LF, line-ending backslash, escapes in string values '
-            '(V15); scalars on the tree -> serde step (K6t, K6d).', '5 C02'),
+            '(V15); scalars on the tree -> serde step (K6t, K6d). '
+            'Bounded: whitespace / newline runs swallowed after a line-ending backslash (K9q; K9 thorough: ws_newline, ws_newlines on 2-3 byte inputs).', '5 C02'),
     'C05': ('recursion counter contract (Verus, unbounded): limit <= 128, enter/exit balance, limit enforced exactly at the '
             'bound, dotted-key depth check, value() enters arrays and inline tables through check_recursion (dispatch table); '
             'Kani: check_recursion leaves the counter balanced.', '4 V3'),
